@@ -126,6 +126,10 @@ CHECKS["C12"] = {
             "(flags, precision, fill) left behind are collected and every decode is repeated on a stream preset to each "
             "of them: result and text must be identical.  (d) 19 definition lines incl. BI0 / BI0:2 / BI0:3 and ranges "
             "differing only in the step; a valid line refused when loaded alone is a violation (config-rejected).  "
+            "(f) 9 definition blocks = a defaults line of a message type (*r / *w / *u, with and without default fields, one "
+            "with fields in both parts, one block with two types) followed by its messages: every ordered selection of <= 3 "
+            "(thorough 4) blocks concatenated into one file must make each block's messages dump, encode and decode as when "
+            "the block is the only one in the file.  "
             "field kinds plain / value list / constant (=v) / verified constant (==v); constant fields of BTI BDA:3 TTM HEX STR "
             "UCH BCD D2C and inside a multi-field definition are decoded with matching data, different data, data "
             "invalid for the type (incl. errors detected after part of the text was produced) and too short data, "
